@@ -159,29 +159,33 @@ PROPS["C01"] = {
 PROPS["C02"] = {
     "lean_modules": ["MithrilModel.Properties.C02"],
     "theorems": [
-        "C02.C02_select_sound", "C02.C02_complete_nodup", "C02.C02_monotone_partial", "C02.C02_invalid_ignored",
-        "C02.C02_duplicate_counterexample", "Clerk.select_sound", "Clerk.select_complete", "Clerk.select_monotone_partial",
+        "C02.C02_select_sound", "C02.C02_complete", "C02.C02_monotone", "C02.C02_monotone_offers", "C02.C02_order_independent",
+        "C02.C02_invalid_ignored", "C02.C02_duplicate_counterexample_before_repair", "C02.C02_duplicate_repaired",
+        "Clerk.select_sound", "Clerk.select_complete", "Clerk.normalize_noRepeat", "Clerk.normalize_covers", "Clerk.normalize_origin",
+        "Clerk.selectMerged_monotone",
     ],
-    "level_text": "Soundness of the selection, completeness for every order of the input and monotonicity under any interleaving of extra "
-                  "material are Lean theorems about a transliteration of select_valid_signatures_for_k_indices, under the hypothesis that no "
-                  "(key, index) pair is offered twice; the failure without that hypothesis is a proved counter-example and a listed known "
-                  "finding. The model is compared (selected (signer, indices) lists or the reported count) with the real Clerk on "
-                  "permutations, duplications, index-subset copies, corrupted and other-message signatures, k swept around the covered "
-                  "count; completeness, monotonicity, 'result verifies' and 'honest single signatures verify' are evaluated on the real code.",
-    "level_note": "The validity bit of each signature is the real SingleSignature::verify verdict; sigma enters as the rank of its bytes. "
-                  "C02_aggregate_verifies (the selected set passes the C01 verifier) is checked by S only. An unregistered signer_index makes "
-                  "the wrapper fail before the selection (known finding).",
+    "level_text": "Soundness of the selection, completeness and monotonicity are Lean theorems about a transliteration of "
+                  "select_valid_signatures_for_k_indices for EVERY input list, with no side condition: whatever is handed over (repeated "
+                  "copies, index-subset copies, invalid or other-message signatures, any order), if the valid signatures cover k distinct "
+                  "indices the selection succeeds, extra material never turns success into failure, and success depends only on which valid "
+                  "(key, index) pairs are offered. (Before the two fix: commits monotonicity was false: proved counter-example kept.) The "
+                  "model is compared (selected (signer, indices) lists or the reported count) with the real Clerk on permutations, "
+                  "duplications, index-subset copies, corrupted, other-message and unregistered-slot signatures, k swept around the covered "
+                  "count; completeness, monotonicity, order independence, 'result verifies' and 'honest single signatures verify' are "
+                  "evaluated on the real code.",
+    "level_note": "The validity bit of each signature is the real SingleSignature::verify verdict (an unregistered signer_index counts as "
+                  "invalid); sigma enters as the rank of its bytes. C02_aggregate_verifies (the selected set passes the C01 verifier) is "
+                  "checked by S only.",
     "harness": [("harness", "c02")],
     "anchors": ["mithril-stm/src/proof_system/concatenation/clerk.rs", "mithril-stm/src/proof_system/concatenation/proof.rs",
                 "mithril-stm/src/proof_system/concatenation/signer.rs", "mithril-common/src/protocol/multi_signer.rs"],
-    "rule": "world = real registration (1-8 parties), m in 3..24, phi_f in {0.05,0.2,0.65,1}; case = a (base list, k) and an extension of "
-            "it by repeated copies / invalid material / same-sigma index-subset copies / more honest signatures at random positions; all "
-            "non-trivial; distinct request lines",
+    "rule": "world = real registration (1-8 parties), m in 3..24, phi_f in {0.05,0.2,0.65,1}; case = a (base list, k), an extension of "
+            "it by repeated copies / invalid material / same-sigma index-subset copies / more honest signatures / an unregistered slot at "
+            "random positions, and a permutation of the extension; all non-trivial; distinct request lines",
     "trivial_tags": [],
     "trusted_base": ["rustc/cargo; harness bin c02; blst"],
     "assumptions": [],
-    "goals_not_proved": ["C02_monotone_goal is FALSE on the current tree (C02_duplicate_counterexample): known finding C02-duplicate",
-                         "C02_aggregate_verifies: S only"],
+    "goals_not_proved": ["C02_aggregate_verifies: S only"],
 }
 
 PROPS["C04"] = {
